@@ -274,6 +274,7 @@ func runCase(c *mc.Ctx, k caseT, seed int64, fam string) {
 	})
 	c.AddExecutions(1)
 	what := k.desc
+	c.Case(fam+"/"+what, fmt.Sprint(realErr != nil, refErr != nil, rdErr != nil, len(got)))
 	if len(res.Panics) > 0 {
 		fail(c, "no-panic", "panic/"+fam, "%s: %s", what, res.Panics[0])
 		return
